@@ -41,6 +41,27 @@ CHECKS["C12"] = dict(
         "(check after the yield) is kept as a regression witness that TLC refutes.",
    technique="TLA+ generator+consumer model checked by TLC; every terminal behaviour replayed into the real pipelines",
    design="6/C12")
+CHECKS["C05"] = dict(
+   text="spec/Table.tla models the lazy table as three stores (getter over a shared buffer with row positions and a contiguity flag, "
+        "cache, overlay) next to the eager ADT as ghost state; TLC explores every program of table operations to depth 3 (quick) / 4 "
+        "(thorough) from a whole and a chunked read (len, get, 8 NumPy-style selections, concatenate, replace, tolist, write) and checks "
+        "Equivalent, Aligned, PassThrough, ContigSound and the Frame action property; every program is replayed on lazily and eagerly "
+        "read tables of eight formats and compared step by step: lazy == eager == specification, or both fail. The property quantifies "
+        "over operation histories, which is exactly a bounded state space of programs.",
+   note=TB + "Bounds: 3-record canonical sources, pool of <=3 tables, 2 modelled fields mapped onto rotating real field pairs; each "
+        "program runs on 2 (quick) / 3 (thorough) formats chosen by hash. The as-built concatenate is kept as a regression witness.",
+   technique="TLA+ refinement model (lazy three-store table vs eager ADT) checked by TLC; every program replayed lazily and eagerly",
+   design="6/C05")
+CHECKS["C04"] = dict(
+   text="Same specification as C05: BytesL0 (an untouched record is its raw line; with replaced columns every other field keeps its "
+        "original text) is the meaning and BytesL1 (shared buffer, row positions, contiguity flag, compaction) the mechanism; TLC checks "
+        "PassThrough and ContigSound on every program and prints the bytes each write must produce. Every program ending in a write "
+        "(plus deeper two-write programs over a reduced alphabet) is replayed on lazily read tables of NON-canonical sources (leading "
+        "zeros, '+1007', '1e3', '+name' lines, SAM tags, VCF sample columns, CRLF) of nine formats and the written bytes compared.",
+   note=TB + "Selection-only programs are compared byte for byte; programs with concatenation/replacement field by field, as the "
+        "property words it. BAM pass-through is checked under C16.",
+   technique="TLA+ byte-provenance model checked by TLC; every write program replayed on non-canonical files and bytes compared",
+   design="6/C04")
 PENDING = {}
 def main():
     props = [json.loads(l)["id"] for l in open(os.path.join(HERE, "properties.jsonl"))]
